@@ -5,7 +5,7 @@ import io
 from collections.abc import Mapping
 
 from ..harness import Shard, rng_for, h64, schema_shape, datum_shape, printable, guard, exc_name
-from ..gen.cases import gen_case, boundary_cases
+from ..gen.cases import gen_case, boundary_cases, logical_edge_cases
 from ..ref import schema as RS, binary as RB, conform as RC
 from ..ref.schema import deref
 from . import c01
@@ -21,6 +21,9 @@ RULE = (
     "decoded tree (single positive block + terminator, minimal varints, "
     "little-endian IEEE, UTF-8 byte lengths), and every union branch chosen must be "
     "one the datum conforms to under the independent conformance predicate. "
+    "Logical values (dates, times, naive and aware timestamps at the edges of their "
+    "domains: before the epoch with a sub-second part, year 1 and 9999) are compared "
+    "with the model's encoding of the number the specification assigns to them. "
     "distinct = hash(schema shape, datum value classes, raw/parsed); non-trivial as C01."
 )
 ASSUMPTIONS = c01.ASSUMPTIONS
@@ -29,7 +32,7 @@ TIME_LIMIT = {"quick": 40, "thorough": 480}
 SHARDS = 16
 REACH = {
     "quick": {"bytes_compared": 10000, "boundary_cases": 150, "multibyte_strings": 50,
-              "beyond_2_56": 20, "union_nodes_checked": 2000},
+              "beyond_2_56": 20, "union_nodes_checked": 2000, "logical_edge_values": 200},
     "thorough": {"bytes_compared": 100000},
 }
 
@@ -130,6 +133,32 @@ def one_case(sh, fa, case, parsed):
     sh.count("bytes_total", len(data))
 
 
+def logical_edges(sh, fa):
+    """A logical value is stored as the underlying type's encoding of the
+    number (or text) the specification assigns to it: the model computes that
+    number from the Python value on its own, so the bytes can be compared
+    although the stored value is not the datum itself."""
+    for js, d, _feats in logical_edge_cases():
+        node, _env = RS.build(js)
+        want = RB.encode(node, RC.from_datum(node, d))
+        for parsed in (False, True):
+            sh.case(h64("logical-edge", schema_shape(js), parsed))
+            info = {"schema": js, "datum": d, "parsed": parsed, "dtn": False}
+            schema = fa.parse_schema(js) if parsed else js
+            out = io.BytesIO()
+            st, v = guard(fa.schemaless_writer, out, schema, d)
+            if st == "exc":
+                sh.violation("writer-raised", "logical edge value: %s" % v, info)
+                continue
+            sh.count("logical_edge_values", len(d) if isinstance(d, list) else len(d["seen"]))
+            if out.getvalue() != want:
+                got = out.getvalue()
+                n = next((i for i, (a, b) in enumerate(zip(want, got)) if a != b), min(len(want), len(got)))
+                sh.violation("logical-value-bytes-differ",
+                             "offset %d: wrote %s, the specification's number for the value encodes as %s"
+                             % (n, got[max(0, n - 4): n + 12].hex(), want[max(0, n - 4): n + 12].hex()), info)
+
+
 def run_shard(spec):
     import fastavro as fa
 
@@ -149,6 +178,7 @@ def run_shard(spec):
         for js, d, feats in boundary_cases():
             node, env = RS.build(js)
             cases.append({"schema": js, "node": node, "env": env, "datum": d, "features": set(feats)})
+        logical_edges(sh, fa)
     nb = len(cases)
     i = 0
     while i < spec["n"] + nb and not (i >= nb and sh.out_of_time()):
